@@ -556,7 +556,7 @@ Lemma inv_add_resp s z ns1 ms idx iidx hid ht t :
 Proof.
   intros I HN HU HI HS HT HG HD HP ->.
   destruct (used_false _ _ HU) as [U1 U2].
-  unfold tid in HI. inversion HI as [[El Er Eh Es Ei]]. clear HI.
+  unfold tid in HI. injection HI as El Er Eh Es Ei.
   destruct (i_net1 s I _ _ _ _ HN) as [ON PN].
   pose proof (i_bound_net s I _ HN) as BN. cbn [msg_bound] in BN.
   pose proof (mk_id_ge z (s_clk s)) as GE. pose proof (mk_id_lt z (s_clk s)) as LT.
@@ -598,7 +598,7 @@ Lemma inv_add_ini s z ns1 ms iidx ridx hid sid rt p t :
   Inv (put s z ns1 ms None).
 Proof.
   intros I HN HP HR HIdx HHid HI HS HT HG HD HPn HM.
-  unfold tid in HI. inversion HI as [[El Er Eh Es Ei]]. clear HI.
+  unfold tid in HI. injection HI as El Er Eh Es Ei.
   destruct (i_net2 s I _ _ _ _ _ _ HN) as (ON & RN & HoN).
   pose proof (i_bound_net s I _ HN) as [BN1 BN2]. fold (pend s z) in HP.
   destruct (i_pend s I z p HP HR) as (OP & NDone & NoL). rewrite HHid in *. rewrite HIdx in *.
